@@ -296,3 +296,42 @@ class HatUniform(Contract):
 
 CONTRACTS += [HatNonSymmetric(), HatUniform(), CheckAdjacency()]
 ASSUMPTIONS += ["hat_function_non_symmetric: standard basis (grid.modified_basis False); HatPrefix(k) is the product of the first k one-dimensional hat values (ghost recursion)"]
+
+
+# --------------------------------------------------------------------------- mass-lumped system matrix of a uniform component grid (dims 1-3)
+class BuildRMassLumped(Contract):
+    """DensityEstimation.build_R_matrix with mass lumping: the single diagonal value is the Gram diagonal of the uniform hat basis, the product over the
+    dimensions of the integral of the squared 1-D hat of mesh width h_k = 2^-l_k, i.e. 2 h_k / 3"""
+    file, qualname = FILE, "DensityEstimation.build_R_matrix"
+
+    def __init__(self, dim):
+        self.dim = dim
+        self.label = "DensityEstimation.build_R_matrix[mass lumping, dim=%d]" % dim
+
+    def inputs(self, S):
+        for ax in _pow2_axioms():
+            S.assume(ax, "def:pow2")
+        return {"self": Obj("DensityEstimation", dict(masslumping=True, dim=self.dim)), "levelvec": Seq("list", [S.int("l%d" % k) for k in range(self.dim)])}
+
+    def pre(self, S, env):
+        return [("levels-at-least-one", z3.And(*[l >= 1 for l in env["levelvec"].items]))]
+
+    def post(self, S, old, env, result):
+        from pyvc import values as Vv
+        want = z3.RealVal(1)
+        for l in old["levelvec"].items:
+            h = 1 / z3.ToReal(P.POW2(l))
+            want = want * (2 * h / 3)
+        return [Cl("mass-lumped-value-is-the-gram-diagonal", Vv.to_z3(result, True) == want, prop=True)]
+
+    def model_to_input(self, model):
+        from pyvc import modelparse as mp
+        return {"kind": "C16.masslumped", "levelvec": [int(mp.num(model.get("l%d" % k, "1")) or 1) for k in range(self.dim)]}
+
+
+def _pow2_axioms():
+    j = z3.Int("p2j")
+    return [P.POW2(0) == 1, z3.ForAll([j], z3.Implies(j >= 0, z3.And(P.POW2(j + 1) == 2 * P.POW2(j), P.POW2(j) >= 1)), patterns=[P.POW2(j)])]
+
+
+CONTRACTS += [BuildRMassLumped(1), BuildRMassLumped(2), BuildRMassLumped(3)]
